@@ -12,7 +12,7 @@ from common import bits2float, float2bits
 logging.disable(logging.WARNING)
 
 PROP = "EXTRA"
-PROPS_FILES = ["Pms/Props/Extra.lean", "Pms/Props/Filon.lean", "Pms/Props/WaveX.lean", "Pms/Props/Pack.lean"]
+PROPS_FILES = ["Pms/Props/Extra.lean", "Pms/Props/Filon.lean", "Pms/Props/WaveX.lean", "Pms/Props/Pack.lean", "Pms/Props/Voropp.lean"]
 GENERATORS = ["extra", "filon", "wavex"]
 RULE = ("random decimal-grid arguments: 2-D line pairs (non-parallel, |D| ≥ 1e-3), triangles from random 2-D/3-D vertices in an open box, "
         "x ∈ [−1, 1]; each evaluation compares the regenerated Lean term (Float) with the real function and checks the theorem's statement on "
@@ -112,7 +112,8 @@ def correspond(run):
     filon_part(run, tdis, pf)
     wavex_part(run, tdis, pf)
     pack_part(run, tdis, pf)
-    run.coverage["programs"] = 10
+    voropp_part(run, tdis, pf)
+    run.coverage["programs"] = 14
     run.coverage["disagreements_checked"] = len(tdis)
     broken = []
     if tdis:
@@ -403,6 +404,149 @@ def pack_part(run, tdis, pf):
                 pf.append((c, "packing_capability_2d changes when the neighbours inside each row are listed in reverse order"))
         except Exception as e:
             pf.append((c, f"packing_capability_2d raised {type(e).__name__} on reversed rows: {e}"))
+
+
+def voropp_part(run, tdis, pf):
+    """neighbors/voropp_neighbors.py with a STAND-IN for the external program: a script named `voro++`, first on PATH, that keeps a copy
+    of the input file it is given and writes a prepared `dumpused.vol`.  Checked: get_input / the input file (id, coordinates, radius of
+    the particle's type); cal_voro (the four files are the four `@`-parts of every line, verbatim); voronowalls against the driver's
+    model and the theorems' statements (no wall left, areas aligned with the kept neighbours, recomputed cn and total area); indicehis
+    against the model (rows as a multiset, frequencies non-increasing and adding up to 1)."""
+    import os, shutil, stat, tempfile
+    from fractions import Fraction
+    from PyMatterSim.reader.reader_utils import SingleSnapshot, Snapshots
+    from PyMatterSim.neighbors import voropp_neighbors as vp
+    rng = run.rng
+    tmp = tempfile.mkdtemp(prefix="extravoro")
+    cwd, path0 = os.getcwd(), os.environ.get("PATH", "")
+    try:
+        exe = os.path.join(tmp, "bin")
+        os.makedirs(exe)
+        with open(os.path.join(exe, "voro++"), "w") as f:
+            f.write('#!/bin/sh\nn=$(cat "$PMS_FAKE_DIR/count")\ncp dumpused "$PMS_FAKE_DIR/in.$n"\ncp "$PMS_FAKE_DIR/vol.$n" dumpused.vol\necho $((n+1)) > "$PMS_FAKE_DIR/count"\n')
+        os.chmod(os.path.join(exe, "voro++"), stat.S_IRWXU)
+        os.environ["PATH"] = exe + os.pathsep + path0
+        os.environ["PMS_FAKE_DIR"] = tmp
+        os.chdir(tmp)
+        for _ in range(12 if run.tier == "quick" else 150):
+            T, N, d = rng.randint(1, 3), rng.randint(2, 7), 3
+            K = rng.choice([1, 2, 3])
+            radii = {k + 1: float(common.dec(rng, 0.3, 0.9, 2)) for k in range(K)}
+            walls = rng.random() < 0.7
+            frames, snaps = [], []
+            for t in range(T):
+                types = [rng.randint(1, K) for _ in range(N)]
+                pos = np.array([[float(common.dec(rng, 0, 5, 3)) for _ in range(d)] for _ in range(N)])
+                L = np.array([5.0, 6.0, 7.0])
+                snaps.append(SingleSnapshot(t, N, np.array(types), pos, L, np.column_stack((np.zeros(d), L)), None, np.diag(L)))
+                cells = []
+                order = list(range(1, N + 1))
+                rng.shuffle(order)                                   # voro++ writes the cells in its own order
+                for i in order:
+                    cn = rng.randint(3, 9)
+                    nbrs = [(-rng.randint(1, 6) if walls and rng.random() < 0.3 else rng.randint(1, N)) for _ in range(cn)]
+                    if all(x < 0 for x in nbrs):
+                        nbrs[0] = rng.randint(1, N)
+                    areas = [common.dec(rng, 0, 3, 3) for _ in range(cn)]
+                    vol = common.dec(rng, 0.5, 9, 3)
+                    tot = str(sum(Fraction(a) for a in areas).limit_denominator(10 ** 6).__float__())
+                    idx = [0, 0, 0] + [rng.randint(0, 4) for _ in range(rng.randint(2, 6))]
+                    cells.append({"id": i, "cn": cn, "nbrs": nbrs, "areas": areas, "vol": vol, "tot": "%.6f" % float(tot), "idx": idx})
+                frames.append(cells)
+                with open(os.path.join(tmp, f"vol.{t}"), "w") as f:
+                    for c in cells:
+                        f.write(f"{c['id']} {c['cn']} {c['vol']} {c['tot']} @{c['id']} {' '.join(map(str, c['idx']))} @{c['id']} {c['cn']} "
+                                f"{' '.join(map(str, c['nbrs']))} @{c['id']} {c['cn']} {' '.join(c['areas'])}\n")
+            S = Snapshots(T, snaps)
+            case = {"kind": "voropp", "T": T, "N": N, "radii": radii, "frames": frames}
+            for routine in ("cal_voro", "voronowalls"):
+                with open(os.path.join(tmp, "count"), "w") as f:
+                    f.write("0\n")
+                out = os.path.join(tmp, "o")
+                try:
+                    with np.errstate(all="ignore"):
+                        (vp.cal_voro(S, "-p", radii, out) if routine == "cal_voro" else vp.voronowalls(S, "-px", radii, out))
+                except Exception as e:
+                    pf.append((dict(case, routine=routine), f"{routine} raised {type(e).__name__}: {e}"))
+                    continue
+                run.hist("routine", routine); run.count((routine, repr(frames)), True)
+                # the input file handed to voro++
+                for t in range(T):
+                    got = np.loadtxt(os.path.join(tmp, f"in.{t}"), ndmin=2)
+                    want = np.column_stack((np.arange(N) + 1, snaps[t].positions, [radii[k] for k in snaps[t].particle_type]))
+                    if got.shape != want.shape or np.abs(got - want).max() > 6e-7:
+                        pf.append((dict(case, routine=routine), f"{routine}: the input file of frame {t} is not `id x y z radius-of-its-type`"))
+                        break
+                files = {k: open(f"{out}.{k}.dat").read().split("\n") for k in ("neighbor", "facearea", "voroindex", "overall")}
+                if routine == "cal_voro":
+                    want = {"neighbor": [], "facearea": [], "voroindex": ["id   voro_index   0_to_7_faces"], "overall": ["id   cn   volume   facearea"]}
+                    for cells in frames:
+                        want["neighbor"].append("id   cn   neighborlist"); want["facearea"].append("id   cn   facearealist")
+                        for c in cells:
+                            want["overall"].append(f"{c['id']} {c['cn']} {c['vol']} {c['tot']} ")
+                            want["voroindex"].append(f"{c['id']} {' '.join(map(str, c['idx']))} ")
+                            want["neighbor"].append(f"{c['id']} {c['cn']} {' '.join(map(str, c['nbrs']))} ")
+                            want["facearea"].append(f"{c['id']} {c['cn']} {' '.join(c['areas'])}")
+                    for k in want:
+                        if [x for x in files[k] if x != ""] != want[k]:
+                            pf.append((dict(case, routine=routine), f"cal_voro: {k} file is not the corresponding `@`-part of every voro++ line, frame by frame"))
+                            break
+                    continue
+                # voronowalls: per cell against the model and the statements
+                ops = []
+                for cells in frames:
+                    for c in cells:
+                        nb = [c["id"], c["cn"]] + c["nbrs"]
+                        fa = [str(c["id"]), str(c["cn"])] + c["areas"]
+                        ops.append(f"voropp walls impl {len(nb)} {' '.join(map(str, nb))} {len(fa)} {' '.join(fa)} {c['id']} {c['cn']} {c['vol']} {c['tot']}")
+                outs = common.drive(ops)
+                nbl = [x for x in files["neighbor"] if x.strip() and not x.startswith("id")]
+                fal = [x for x in files["facearea"] if x.strip() and not x.startswith("id")]
+                ovl = [x for x in files["overall"] if x.strip() and not x.startswith("id")]
+                flat = [c for cells in frames for c in cells]
+                if not (len(nbl) == len(fal) == len(ovl) == len(flat)):
+                    pf.append((dict(case, routine=routine), f"voronowalls wrote {len(nbl)}/{len(fal)}/{len(ovl)} rows for {len(flat)} cells"))
+                    continue
+                for c, o, a, b, g in zip(flat, outs, nbl, fal, ovl):
+                    if o in ("bad-op", "error"):
+                        raise common.Infra("driver: " + o)
+                    mn, mf, mo = [x.split() for x in o.split("|")]
+                    rn, rf, ro = [int(x) for x in a.split()], [float(x) for x in b.split()], [float(x) for x in g.split()]
+                    if rn != [int(x) for x in mn] or len(rf) != len(mf) or any(abs(x - float(Fraction(y))) > 6e-7 for x, y in zip(rf, mf)) \
+                            or len(ro) != 4 or any(abs(x - float(Fraction(y))) > 2e-6 for x, y in zip(ro, mo)):
+                        tdis.append((dict(case, routine=routine), f"voronowalls cell {c['id']}: wrote {rn} | {rf} | {ro}, model {mn} | {mf} | {mo}"))
+                    kept = [(n, float(x)) for n, x in zip(c["nbrs"], c["areas"]) if n > 0]
+                    if rn[2:] != [n for n, _ in kept] or any(n <= 0 for n in rn[2:]) or rn[1] != len(kept) or int(ro[1]) != len(kept) \
+                            or len(rf) != 2 + len(kept) or any(abs(x - y) > 6e-7 for x, (_, y) in zip(rf[2:], kept)) \
+                            or abs(ro[3] - sum(y for _, y in kept)) > 2e-6 or abs(ro[2] - float(c["vol"])) > 6e-7:
+                        pf.append((dict(case, routine=routine), f"voronowalls cell {c['id']} (neighbours {c['nbrs']}, areas {c['areas']}): wrote neighbours {rn}, "
+                                                                f"areas {rf}, overall {ro}; expected the positive neighbours {[n for n, _ in kept]} with their own areas "
+                                                                f"{[y for _, y in kept]}, cn {len(kept)}, total area {sum(y for _, y in kept):.6f}"))
+                        break
+                # indicehis on the index file just written
+                his = os.path.join(tmp, "his.dat")
+                try:
+                    vp.indicehis(out + ".voroindex.dat", his)
+                except Exception as e:
+                    pf.append((dict(case, routine="indicehis"), f"indicehis raised {type(e).__name__}: {e}"))
+                    continue
+                run.hist("routine", "indicehis"); run.count(("his", repr(frames)), True)
+                rows = [x.split() for x in open(his).read().split("\n")[1:] if x.strip()]
+                real = sorted((tuple(int(v) for v in r[:4]), float(r[4])) for r in rows)
+                o = common.drive([f"voropp his {len(flat)} " + " ".join(f"{len(c['idx'])} " + " ".join(map(str, c["idx"])) for c in flat)])[0]
+                body = o.partition(" ")[2]
+                model = sorted((tuple(int(v) for v in e.split(":")[0].split(",")), float(Fraction(e.split(":")[1]))) for e in body.split(";")) if body else []
+                if [k for k, _ in real] != [k for k, _ in model] or any(abs(x - y) > 6e-7 for (_, x), (_, y) in zip(real, model)):
+                    tdis.append((dict(case, routine="indicehis"), f"indicehis rows {real} vs model {model}"))
+                fr = [float(r[4]) for r in rows]
+                if abs(sum(fr) - 1) > 1e-5 * max(1, len(fr)) or any(fr[i] < fr[i + 1] - 1e-9 for i in range(len(fr) - 1)):
+                    pf.append((dict(case, routine="indicehis"), f"indicehis: frequencies {fr} do not add up to 1 / are not in decreasing order"))
+    finally:
+        os.chdir(cwd)
+        os.environ["PATH"] = path0
+        os.environ.pop("PMS_FAKE_DIR", None)
+        shutil.rmtree(tmp, ignore_errors=True)
+    np.set_printoptions(edgeitems=3, infstr="inf", linewidth=75, nanstr="nan", precision=8, suppress=False, threshold=1000, formatter=None)
 
 
 def search(run, broken):
